@@ -277,6 +277,17 @@ def refused_prelude(t, nodes, rng, typed):
         n = rng.choice(nodes)
         r = rng.random()
         try:
+            if rng.random() < 0.35:
+                # moves that leave the shape as it is: an only child to its own parent, a first child to the front, a last one to the end
+                par = n.parent if n.parent is not None else t
+                sibs = list(par.children)
+                if len(sibs) == 1:
+                    n.move_to(par, before=rng.choice([None, True]))
+                elif sibs[0] is n:
+                    n.move_to(par, before=True)
+                elif sibs[-1] is n:
+                    n.move_to(par)
+                continue
             if r < 0.3:
                 n.add("tmp-new", before=n, **kw)  # `before` is not a child of n
             elif r < 0.45:
